@@ -862,18 +862,28 @@ func (c *Compiler) compilePipe(node *ast.Pipe) error {
 	if err := c.compile(exprs[0]); err != nil {
 		return err
 	}
-	// Set the pipe active flag for the remainder of the pipe
-	c.current.pipeActive = true
 	defer func() {
 		c.current.pipeActive = false
 	}()
 	// Iterate over the remaining expressions. Each should eval to a function.
-	// TODO: may need to compile to a partial as well.
 	for i := 1; i < len(exprs); i++ {
+		// A stage that is a call is compiled to a partial, which the value
+		// in the pipe is then added to. The flag that says so is for that
+		// call alone: in a stage of any other form (fs[pick()], a ternary)
+		// the calls are ordinary calls.
+		switch exprs[i].(type) {
+		case *ast.Call, *ast.ObjectCall:
+			c.current.pipeActive = true
+		case *ast.Pipe:
+			return fmt.Errorf("compile error: invalid nested pipe")
+		default:
+			c.current.pipeActive = false
+		}
 		// Compile the current expression, pushing a function as TOS
 		if err := c.compile(exprs[i]); err != nil {
 			return err
 		}
+		c.current.pipeActive = false
 		// Swap the function (TOS) with the argument below it on the stack
 		// and then call the function with one argument
 		c.emit(op.Swap, 1)
